@@ -735,7 +735,9 @@ func grpcErrorFromTrailer(bufferPool *bufferPool, protobuf Codec, trailer http.H
 		}
 		var status statusv1.Status
 		if err := protobuf.Unmarshal(detailsBinary, &status); err != nil {
-			return errorf(CodeInternal, "server returned invalid protobuf for error details: %w", err)
+			// (A codec's complaint may wrap io.EOF; it must not make the server's
+			// error pass for the end of the stream.)
+			return errorf(CodeInternal, "server returned invalid protobuf for error details: %w", withoutEOF(err))
 		}
 		for _, d := range status.Details {
 			retErr.details = append(retErr.details, d)
